@@ -3,6 +3,7 @@ package fingerprint
 import (
 	"os"
 	"path/filepath"
+	"strings"
 	"time"
 
 	"github.com/go-task/task/v3/taskfile/ast"
@@ -70,11 +71,12 @@ func (checker *TimestampChecker) IsUpToDate(t *ast.Task) (bool, error) {
 		if err := os.MkdirAll(filepath.Dir(pendingFile), 0o755); err != nil {
 			return false, err
 		}
-		f, err := os.Create(pendingFile)
-		if err != nil {
+		// The file lists the sources, so that a source that is removed or
+		// renamed later (which leaves no newer modification time behind) is
+		// noticed by the next check.
+		if err := os.WriteFile(pendingFile, []byte(strings.Join(sources, "\n")+"\n"), 0o644); err != nil {
 			return false, err
 		}
-		f.Close()
 		if err := os.Chtimes(pendingFile, taskTime, taskTime); err != nil {
 			return false, err
 		}
@@ -94,7 +96,11 @@ func (checker *TimestampChecker) IsUpToDate(t *ast.Task) (bool, error) {
 		return false, nil
 	}
 
-	return timestampFileExists && !generatesMissing && !shouldUpdate, nil
+	// The set of sources itself must be the one recorded by the last run
+	recorded, _ := os.ReadFile(timestampFile)
+	sourcesChanged := string(recorded) != strings.Join(sources, "\n")+"\n"
+
+	return timestampFileExists && !generatesMissing && !sourcesChanged && !shouldUpdate, nil
 }
 
 func (checker *TimestampChecker) Kind() string {
